@@ -18,6 +18,7 @@
 (*                              tryUpgrade                 -> TryUpgrade (stored version written)             *)
 (*                              AddBlock                   -> InsertBlock (tryUpgrade, then genesis switch)   *)
 (*                              InitializeChain            -> RestartNode (tryUpgrade(head), genesis info)    *)
+(*                              ResetTo (fork adoption)    -> RollBack (what the property requires of it)       *)
 (*   main.go / node/node.go     start-up: stored version -> config -> InitializeChain -> Upgrader.Start      *)
 (*                                                         -> RestartNode                                   *)
 (*   config/consensus.go        ApplyConsensusVersion      -> the EnableUpgradeNN flags are a function of     *)
@@ -161,6 +162,21 @@ RestartNode(cfg, base, nd, headBlk) ==
     IN [n1 EXCEPT !.book = nd.pbook,
                   !.cur = IF pre THEN PreGen ELSE nd.inter,
                   !.old = IF pre THEN NoGen ELSE PreGen]                       \* OldGenesisAfterRestart
+
+\* what a node that started at version `base` is after inserting the blocks bs[1..j] (bs[x] at height h0 + x), never restarted:
+\* version, stored version and genesis info are a function of the chain
+RECURSIVE ByChainNode(_, _, _, _, _, _)
+ByChainNode(cfg, base, bs, h0, j, book0) ==
+    IF j = 0 THEN [ver |-> base, stored |-> 0, book |-> book0, pbook |-> book0, cur |-> PreGen, old |-> NoGen, inter |-> NoGen]
+    ELSE InsertBlock(cfg, ByChainNode(cfg, base, bs, h0, j - 1, book0), bs[j], h0 + j)
+
+\* Blockchain.ResetTo (fork adoption, recovery) down to the blocks bs[1..j]: the property requires that the node is afterwards
+\* what the chain it keeps makes it - the version an orphaned upgrade block brought is gone (configuration AND stored version),
+\* the genesis info names blocks of the kept chain; the books are untouched.
+\* (The code under verification does not do this: ResetTo leaves configuration, stored version and genesis info alone.)
+RollBack(cfg, base, nd, bs, h0, j) ==
+    LET f == ByChainNode(cfg, base, bs, h0, j, EmptyBook(nd.book)) IN
+    [nd EXCEPT !.ver = f.ver, !.stored = f.stored, !.cur = f.cur, !.old = f.old, !.inter = f.inter]
 
 \* a probe block carries a transaction with a 4 KiB payload, which the rules admit from version 11 on (the rules of the
 \* versions differ otherwise only in contract execution and at the epoch change): built by a node running the rules of
